@@ -178,7 +178,7 @@ func DrawResp(c *core.Ctx, label string, uniq int) LResp {
 	if n > 1000 && !c.Chance(label+".big", 1, 3) {
 		n = c.Int(label+".bodyLen2", 0, 300)
 	}
-	if c.Chance(label+".huge", 1, 400) {
+	if c.Chance(label+".huge", 1, 3000) {
 		n = c.PickInt(label+".hugeLen", 1<<20, 1<<20+1, 1<<21+5) // past pre-allocation limits
 		c.Probe("body of 1 MiB and more")
 	}
